@@ -45,6 +45,7 @@ namespace bxdecay0 {
 
   void Pa231(i_random & prng_, event & event_, const double tcnuc_, double & tdnuc_)
   {
+    BXDECAY0_VERIF_SCOPE("scheme:Pa231", tcnuc_);
     // Models for scheme of Pa231 decay:
     //  - http://www.nucleide.org/DDEP_WG/Nuclides/Pa-231_tables.pdf
     //  - http://www.nucleide.org/DDEP_WG/Nuclides/Pa-231_com.pdf
